@@ -104,6 +104,7 @@ class Decl:
     vis: str = "pub"
     name: str = "E"
     shape: str = ""
+    repr_attr: bool = True  # False: the repr attribute is already among enum_attrs
 
     def sorted(self):
         return sorted(self.variants, key=lambda v: v.value)
@@ -145,7 +146,8 @@ class Decl:
         lines.extend(self.enum_attrs)
         lines.append(derive_line)
         lines.extend(cfg_attrs)
-        lines.append("#[repr(%s)]" % self.repr)
+        if self.repr_attr:
+            lines.append("#[repr(%s)]" % self.repr)
         lines.append("%s enum %s {" % (self.vis, self.name) if self.vis else "enum %s {" % self.name)
         for v in self.variants:
             for a in v.attrs:
